@@ -27,15 +27,17 @@ EXTENDS Session, Json, IOUtils
 
 TraceLog == ndJsonDeserialize(IOEnv.VERIF_TRACE)
 
-VARIABLES l, pend, free
-tvars == <<allvars, l, pend, free>>
+VARIABLES l, pend, free,
+          bound   \* what ConnCount can have been at most since the last reset / reconf
+tvars == <<allvars, l, pend, free, bound>>
 
-TraceInit == l = 1 /\ pend = 0 /\ free = FALSE /\ InitWith(1)
+TraceInit == l = 1 /\ pend = 0 /\ free = FALSE /\ bound = 1 /\ InitWith(1)
 
 TReset(e) ==
   /\ maxc' = e.maxc /\ count' = 0 /\ ss' = [s \in Sess |-> NewS]
   /\ last' = [op |-> "init", maxc |-> e.maxc]
   /\ free' = e.free
+  /\ bound' = (IF e.maxc > 0 THEN e.maxc ELSE 0)
 
 (* scripted connection: everything is visible *)
 StepObsOK(o) ==
@@ -55,7 +57,7 @@ FreeObsOK(o) ==
   /\ o.count = count
   \* ConnCount as read by the handlers and by a free-running sampler while connections are
   \* accepted and sessions end: within 0 .. max at every instant (max <= 0 admits nothing)
-  /\ o.maxseen <= (IF maxc > 0 THEN maxc ELSE 0)
+  /\ o.maxseen <= bound
   /\ o.minseen >= 0
   /\ (\A i \in 1..Len(o.ss) : Ended(ss[i]) \/ ss[i].st # "run") => o.g = 0
   /\ \A i \in 1..Len(o.ss) : LET c == ss[i]  x == o.ss[i] IN
@@ -84,27 +86,46 @@ RaceOK(e) ==
   /\ \A i \in 1..e.n : e.exits[i] = 1 /\ e.closed[i]
   /\ e.started = e.before + e.n /\ e.after = e.before /\ e.g = 0
 
+(* Long runs (lengths around integer widths): one session takes n one-byte    *)
+(* Sends and is then closed with a reading peer - n applications of send,     *)
+(* close, n of wok: everything arrives, in order, one exit, count restored    *)
+(* (kind "sends"); or n sessions are alive at once and are then all closed    *)
+(* (kind "alive": the count is previous + n, then previous).  Run-length      *)
+(* encoded in one event.                                                      *)
+RunOK(e) ==
+  /\ e.after = e.before /\ e.g = 0
+  /\ IF e.kind = "sends"
+     THEN e.accepted = e.n /\ e.delivered = e.n /\ e.inorder /\ e.exits = 1 /\ e.closed
+          /\ e.during = e.before + 1
+     ELSE e.kind = "alive" /\ e.during = e.before + e.n /\ e.exits = e.n /\ e.closed = e.n
+
 TraceNext ==
   \/ /\ pend = 0 /\ l <= Len(TraceLog)
      /\ LET e == TraceLog[l] IN
           CASE e.ev = "reset" -> TReset(e) /\ l' = l + 1 /\ UNCHANGED pend
-            [] e.ev = "fire"  -> Step(e.a) /\ l' = l + 1 /\ UNCHANGED <<pend, free>>
-            [] e.ev = "sync"  -> pend' = 1 /\ UNCHANGED <<allvars, l, free>>
-            [] e.ev = "race"  -> RaceOK(e) /\ l' = l + 1 /\ UNCHANGED <<allvars, pend, free>>
+            [] e.ev = "fire"  -> Step(e.a) /\ l' = l + 1 /\ UNCHANGED <<pend, free, bound>>
+            [] e.ev = "sync"  -> pend' = 1 /\ UNCHANGED <<allvars, l, free, bound>>
+            [] e.ev = "race"  -> RaceOK(e) /\ l' = l + 1 /\ UNCHANGED <<allvars, pend, free, bound>>
+            [] e.ev = "run"   -> RunOK(e) /\ l' = l + 1 /\ UNCHANGED <<allvars, pend, free, bound>>
+            [] e.ev = "reconf" -> \* the same Server object restarted with another limit; sessions carry over
+                 /\ Quiescent /\ maxc' = e.maxc /\ l' = l + 1
+                 \* live sessions carry over: the count may stay above a lowered limit, it cannot grow there
+                 /\ bound' = (IF e.maxc > count THEN e.maxc ELSE count)
+                 /\ UNCHANGED <<count, ss, last, pend, free>>
             [] OTHER -> FALSE
   \/ /\ pend = 1 /\ Quiescent
      /\ IF free THEN (\A s \in Sess : ss[s].sp # "write") /\ FreeObsOK(TraceLog[l].obs)
                 ELSE StepObsOK(TraceLog[l].obs)
-     /\ l' = l + 1 /\ pend' = 0 /\ UNCHANGED <<allvars, free>>
+     /\ l' = l + 1 /\ pend' = 0 /\ UNCHANGED <<allvars, free, bound>>
   \/ /\ \E s \in Sess : InternalW(s, free)
-     /\ UNCHANGED <<last, l, pend, free>>
+     /\ UNCHANGED <<last, l, pend, free, bound>>
   \/ /\ free                                             \* the peer reads
      /\ \E s \in Sess : Do([op |-> "wok", s |-> s])
-     /\ UNCHANGED <<last, l, pend, free>>
+     /\ UNCHANGED <<last, l, pend, free, bound>>
 
 TraceSpec == TraceInit /\ [][TraceNext]_tvars
 
-TView == <<vars, l, pend, free>>
+TView == <<vars, l, pend, free, bound>>
 
 ASSUME TLCSet(1, 0)
 Mark == TLCSet(1, IF l > TLCGet(1) THEN l ELSE TLCGet(1))
